@@ -548,7 +548,12 @@ func (c *compiler) compile(tok *token) []instruction {
 			t := c.toType(arg.Tokens[0])
 			types = append(types, t)
 		}
-		for _, arg := range tok.Tokens[funcArguments].Tokens {
+		for n, arg := range tok.Tokens[funcArguments].Tokens {
+			if arg.Text == "_" {
+				// every blank parameter has a slot of its own (a name no identifier can have)
+				c.Locals.Index(fmt.Sprintf("_#%d", n))
+				continue
+			}
 			c.Locals.Index(arg.Text)
 		}
 		if arguments > 0 && tok.Tokens[funcArguments].Tokens[arguments-1].Tokens[0].Text == "..." {
